@@ -22,6 +22,10 @@ func init() {
 
 func storesOn(sp *SymPath, prefix string) map[string]string {
 	m := map[string]string{}
+	// a value `&X` names the object X: stores through it are recorded on X's own path
+	if strings.HasPrefix(prefix, "&") && isPlainPath(prefix[1:]) {
+		prefix = prefix[1:]
+	}
 	for _, ef := range sp.Effects {
 		if ef.Kind == "store" && strings.HasPrefix(ef.Target, prefix+".") && ef.Index == nil {
 			m[strings.TrimPrefix(ef.Target, prefix)] = ef.Val.String()
